@@ -502,13 +502,9 @@ def run(tier: str) -> int:
     sconsts = dict(sentence.TIERS[tier], DoDiff=False)
     if tier == "quick":
         sconsts.update(MaxWords=3)
-    sdata = sentence.collect(tier, chk.seed, consts=sconsts, pairs=False)
-    chk.states += sdata["states"]
-    chk.transitions += sdata["transitions"]
-    chk.traces += sdata["traces"]
-    for e in sdata["errors"]:
-        chk.violation("NoException", e)
-    for smeta, rep, t in sdata["items"]:
+    flush()          # leg C for the families collected so far, before the (large) sentence family forks its workers
+
+    def on_sentence(smeta, rep, t):
         chk.evaluations += 1
         r = sentence.split_report(rep)
         fails = []
@@ -536,6 +532,12 @@ def run(tier: str) -> int:
             chk.violation("+".join(sorted({c for c, _ in residual})), dict(smeta, failing=residual))
         if smeta["nlines"] > 1:
             chk.nontriv(("s", json.dumps([t["words"], t["width"], t["minlen"], t["ii"], t["si"], t["md"]])))
+    sdata = sentence.collect(tier, chk.seed, consts=sconsts, pairs=False, on_item=on_sentence)
+    chk.states += sdata["states"]
+    chk.transitions += sdata["transitions"]
+    chk.traces += sdata["traces"]
+    for e in sdata["errors"]:
+        chk.violation("NoException", e)
     # ---- leg C (remaining families) ----
     flush()
     for smp in sampled:
